@@ -1,17 +1,31 @@
 #!/bin/bash
 # Runs every check against every behaviour-preserving refactoring in mutants/equiv/ (or the
-# patches given as arguments).  None may produce a VIOLATION; CHECK-ERRORs are listed.
+# patches given as arguments), EQUIV_JOBS (default 3) at a time.  None may produce a VIOLATION;
+# CHECK-ERRORs are listed.  Exit 1 if any VIOLATION was printed.
 HERE="$(cd "$(dirname "$0")/.." && pwd)"
 P="$@"; [ -z "$P" ] && P="$(ls "$HERE"/mutants/equiv/*.patch "$HERE"/mutants/equiv/*.diff 2>/dev/null)"
-BAD=0
-for m in $P; do
+JOBS="${EQUIV_JOBS:-3}"
+OUTD="$(mktemp -d /tmp/equiv-out.XXXXXX)"
+trap 'rm -rf "$OUTD"' EXIT
+one() {
+  m="$1"; HERE="$2"; OUTD="$3"
   OUT="$("$HERE/tools/mutant.sh" "$m" ALL 2>&1)"
   V="$(echo "$OUT" | grep -E '^C[0-9]+ rc=1' | cut -d' ' -f1 | tr '\n' ' ')"
   E="$(echo "$OUT" | grep -E '^C[0-9]+ rc=2' | cut -d' ' -f1 | tr '\n' ' ')"
   NA="$(echo "$OUT" | grep -c PATCH-DOES-NOT-APPLY)"
-  if [ "$NA" != "0" ]; then echo "$(basename $m): does not apply"; continue; fi
-  echo "$(basename $m): violations-in=[$V] check-errors-in=[$E]"
-  if [ -n "$V" ]; then BAD=1; echo "$OUT" | grep -E '^C[0-9]+ rc=1' | cut -c1-260; fi
-  if [ -n "$E" ]; then echo "$OUT" | grep -E '^CHECK-ERROR' | sort -u | cut -c1-200 | head -4; fi
+  {
+    if [ "$NA" != "0" ]; then echo "$(basename $m): does not apply"; exit 0; fi
+    echo "$(basename $m): violations-in=[$V] check-errors-in=[$E]"
+    if [ -n "$V" ]; then echo "$OUT" | grep -E '^C[0-9]+ rc=1' | cut -c1-260; fi
+    if [ -n "$E" ]; then echo "$OUT" | grep -E '^CHECK-ERROR' | sort -u | cut -c1-200 | head -4; fi
+  } > "$OUTD/$(basename $m).out"
+}
+export -f one
+echo "$P" | tr ' ' '\n' | grep -v '^$' | xargs -P "$JOBS" -I{} bash -c 'one "$@"' _ {} "$HERE" "$OUTD"
+BAD=0
+for m in $P; do
+  f="$OUTD/$(basename $m).out"
+  [ -f "$f" ] && cat "$f"
+  grep -q 'violations-in=\[C' "$f" 2>/dev/null && BAD=1
 done
 exit $BAD
